@@ -47,6 +47,8 @@ CFG = {
         "the zero-filled tail of dst that Reverse returns on its error path (NUL runes)",
     ],
     "assumptions": [
+        "termination of the Go functions is observed, not proved: every call runs under a 5 s watchdog and a call that does not "
+        "return is reported as a violation (the Gallina models are total by construction)",
         "input strings are valid UTF-8 (valid_string); rune length <= MaxInt64",
         "Shuffle: the recorded stream does not run out (fuel = draws + 1) and n < 2^31 so that Intn uses the injectable source",
     ],
